@@ -68,7 +68,12 @@ impl Soundness {
                 _ => None,
             },
             Mode::Cells => {
-                let cellish = |sig: &str| sig == "C01:cell-content" || sig.ends_with(":cell");
+                // cell contents, and the value an assignment yields against the static type the checker
+                // gives the assignment (`c = v` yields v, `c op= v` yields `*c op v`)
+                let assignment = |sig: &str| {
+                    ["=", "+=", "-=", "*=", "/=", "%=", "<<=", ">>=", "&=", "|=", "^=", "**="].iter().any(|op| sig.contains(&format!(":Bin:{op}:")))
+                };
+                let cellish = |sig: &str| sig == "C01:cell-content" || sig.ends_with(":cell") || assignment(sig);
                 run.log.violations.iter().find(|v| cellish(&v.sig)).map(|v| {
                     fail(format!("C13:cell-typing:{}", v.sig.trim_start_matches("C01:")), format!("{what}: {}", v.msg))
                 })
